@@ -527,6 +527,80 @@ class VQueue(_Named):
         pass
 
 
+class VPriorityQueue(VQueue):
+    """queue.PriorityQueue under the scheduler: get() returns the smallest item"""
+    def _take(self):
+        x = min(self.items)
+        self.items.remove(x)
+        return x
+
+    def get(self, block=True, timeout=None):
+        s = cur_sched()
+        if not block:
+            return self.get_nowait()
+        s.yield_op(("qget", self, timeout), write=False)
+        if not self.items:
+            raise _queue.Empty()
+        s.wake_idle()
+        return self._take()
+
+    def get_nowait(self):
+        cur_sched().yield_op(("op", self, "get_nowait"))
+        if not self.items:
+            raise _queue.Empty()
+        return self._take()
+
+
+class VLifoQueue(VPriorityQueue):
+    def _take(self):
+        return self.items.pop()
+
+
+class VSemaphore(_Named):
+    """threading.Semaphore / BoundedSemaphore under the scheduler (`held` = no permit left: the scheduler's lock rule applies)"""
+    def __init__(self, value=1, bounded=False):
+        self._name("semaphore")
+        self.value, self.initial, self.bounded = value, value, bounded
+        self.owner = None
+
+    @property
+    def held(self):
+        return self.value <= 0
+
+    def acquire(self, blocking=True, timeout=None):
+        s = cur_sched()
+        if not blocking:
+            s.yield_op(("op", self, "try_acquire"), write=False)
+            if self.value <= 0:
+                return False
+        elif timeout is not None:
+            s.yield_op(("op", self, "timed_acquire"), write=False)
+            if self.value <= 0:
+                return False                 # (a timed acquire that finds no permit gives up: the timeout fired)
+        else:
+            s.yield_op(("lock", self, None), write=False)
+            if self.value <= 0 and s.cur is not None:
+                raise DoubleMisuse("scheduler ran a thread blocked on a semaphore without permits")
+            if self.value <= 0:
+                # called from the harness thread itself (a sequential stage): nobody else can release a permit
+                raise Deadlock(f"acquire() on {self.vname} with no permit left and no other thread to release one: the call would never return")
+        self.value -= 1
+        return True
+
+    def release(self, n=1):
+        cur_sched().yield_op(("op", self, "release"), write=False)
+        if self.bounded and self.value + n > self.initial:
+            raise ValueError("Semaphore released too many times")
+        self.value += n
+
+    def __enter__(self):
+        self.acquire()
+        return True
+
+    def __exit__(self, *a):
+        self.release()
+
+
 class VBarrier:
     """fewer parties than bromelia's thresholds (40/50) always ends in the timeout branch"""
     def __init__(self, parties, action=None, timeout=None):
@@ -563,6 +637,9 @@ def make_threading():
     ns.Lock = VLock
     ns.RLock = VLock
     ns.Event = VEvent
+    ns.Semaphore = VSemaphore
+    ns.BoundedSemaphore = lambda value=1: VSemaphore(value, bounded=True)
+    ns.local = _rt.local                 # (virtual threads are real OS threads)
     ns.Barrier = VBarrier
     ns.BrokenBarrierError = _rt.BrokenBarrierError
     ns.current_thread = lambda: cur_sched().cur
@@ -573,6 +650,9 @@ def make_threading():
 def make_queue():
     ns = NS()
     ns.Queue = VQueue
+    ns.PriorityQueue = VPriorityQueue
+    ns.LifoQueue = VLifoQueue
+    ns.SimpleQueue = VQueue
     ns.Empty = _queue.Empty
     ns.Full = _queue.Full
     return ns
